@@ -249,19 +249,7 @@ def vocab(ctx, mi, T):
       ctx.ob('VOCAB/regex', fi, f, okm, '(%s<n>) matches _MODIFICATION_PATTERN' % e if okm else '(%s<n>) is not matched by _MODIFICATION_PATTERN' % e, construct='(%s<n>) ~ _MODIFICATION_PATTERN' % e, depends=VOCAB_DEPS(ctx))
   # S3: one-sided special case
   rd = ctx.func('chord_symbols_lib:_add_scale_degree')
-  rsp = None
-  for st in U.walk_stmts(rd.node):
-    if isinstance(st, ast.If) and isinstance(st.test, ast.Compare) and isinstance(st.test.ops[0], ast.Eq) and U.const_value(st.test.comparators[0]) is not None:
-      for x in st.body:
-        if isinstance(x, ast.AugAssign) and isinstance(x.op, (ast.Sub, ast.Add)) and U.const_value(x.value) is not None:
-          rsp = (U.const_value(st.test.comparators[0]), -U.const_value(x.value) if isinstance(x.op, ast.Sub) else U.const_value(x.value))
-        elif isinstance(x, ast.Assign) and len(x.targets) == 1 and isinstance(x.targets[0], ast.Name):
-          try:      # v = v - 1
-            d_ = (nf.rat(x.value) - nf.rat(U.E(x.targets[0].id))).const_value()
-          except nf.NFError:
-            d_ = None
-          if d_ is not None and d_ != 0 and d_.denominator == 1:
-            rsp = (U.const_value(st.test.comparators[0]), int(d_))
+  rsp = reader_special(rd.node)
   ctx.ob('SEVENTH/reader', rd, rd.node, rsp is not None, 'the reader lowers an added degree %s by %s' % (rsp[0], -rsp[1]) if rsp else 'the reader has no special case for an added seventh',
          construct='reader: add on degree 7 is relative to the dominant seventh')
   ok = (rsp is None and special is None) or (rsp is not None and special is not None and special[0] == rsp[0] and special[1] == -rsp[1])
@@ -446,6 +434,38 @@ def alter_branch_unreachable(ctx):
   call = [c for c in U.calls_in(p2.node) if dotted(c.func) == '_degrees_to_modifications']
   src_ok = len(call) == 1 and len(call[0].args) == 2
   return contain and dup and src_ok
+
+
+def reader_special(fn):
+  """(degree, delta) when the value the reader stores for an added degree differs from the written alteration by a constant on
+  the paths taken for one particular degree, and not at all on the others; read path-wise, so the statement form (an `if`
+  with an augmented assignment, a conditional expression, a temporary) does not matter."""
+  from sa import pathval
+  a = [x.arg for x in fn.args.args]
+  if len(a) != 3:
+    return None
+  loc = '%s[%s]' % (a[0], a[1])
+  try:
+    ps = pathval.paths(fn.body)
+  except pathval.PathError:
+    return None
+  found = None
+  for conds, env, ended in ps:
+    if ended != 'fall' or loc not in env:
+      continue
+    try:
+      d = (nf.rat(env[loc]) - nf.rat(U.E(a[2]))).const_value()
+    except nf.NFError:
+      return None
+    if d is None:
+      return None
+    eq = [U.const_value(t.comparators[0]) for t, pol in conds if pol and isinstance(t, ast.Compare) and len(t.ops) == 1 and isinstance(t.ops[0], ast.Eq) and
+          norm_text(t.left) == a[1] and U.const_value(t.comparators[0]) is not None]
+    if d != 0:
+      if len(eq) != 1 or d.denominator != 1 or (found is not None and found != (eq[0], int(d))):
+        return None
+      found = (eq[0], int(d))
+  return found
 
 
 def seventh_special(fn):
